@@ -10,48 +10,7 @@ import progs
 from common import CACHE, Rng
 
 
-def wide_program(rng):
-    """Programs that stress arities up to 9 and many rules (C09's range)."""
-    nt = 1 + rng.below(3)
-    rels = []
-    for i in range(2 + rng.below(3)):
-        ar = rng.choice([5, 6, 7, 8, 9, 9, 3, 2])
-        rels.append({"name": "p" + progs.suffix(i), "cols": [rng.below(nt) for _ in range(ar)], "func": False})
-    f_ar = rng.choice([4, 6, 8])
-    args = [rng.below(nt) for _ in range(f_ar)]
-    rels.append({"name": "fa", "cols": args + [rng.below(nt)], "func": True})
-    sig = {"ntypes": nt, "rels": rels, "enums": {}}
-    rules = []
-    for _ in range(1 + rng.below(3)):
-        vt = {}
-
-        def var(ty):
-            cands = [v for v, t in vt.items() if t == ty]
-            if cands and rng.chance(2, 3):
-                return ("var", rng.choice(cands))
-            v = len(vt)
-            vt[v] = ty
-            return ("var", v)
-        ru = []
-        for _ in range(1 + rng.below(3)):
-            p = rng.below(len(rels) - 1)
-            ru.append(("if", ("pred", p, [var(c) for c in rels[p]["cols"]])))
-        q = rng.below(len(rels) - 1)
-
-        def known(ty):
-            cands = [v for v, t in vt.items() if t == ty]
-            return ("var", rng.choice(cands)) if cands else None
-        a = [known(c) for c in rels[q]["cols"]]
-        if all(x is not None for x in a):
-            ru.append(("then", ("pred", q, a)))
-        else:
-            continue
-        ru = progs.fix_single_vars(ru)
-        if ru:
-            rules.append(ru)
-    if not rules:
-        return None
-    return {"sig": sig, "rules": rules}
+wide_program = progs.wide_program
 
 
 def _one(args):
